@@ -204,6 +204,33 @@ def run_for(prop, tier, scratch, outdir, only_harnesses=None, playback=False):
         with open(os.path.join(outdir, f"kani-{crate}.log"), "w") as f:
             f.write(" ".join(cmd) + "\n\n" + out)
         parsed = parse_output(out)
+        # a harness that timed out (or produced nothing) while many ran side by side is run again with fewer
+        # neighbours and three times the time: a loaded machine must not turn into "undecided"
+        again = []
+        for fn in full:
+            ent = next((v for k, v in parsed.items() if k == fn or k.endswith("::" + fn) or k.endswith(fn)), None)
+            if (ent is None or ent["status"] == "timeout") and not playback and "error: could not compile" not in out:
+                again.append(fn)
+        if again and len(again) <= 8:
+            cmd2 = [c for c in cmd]
+            k = cmd2.index("--harness-timeout")
+            cmd2[k + 1] = f"{tmo * 3}s"
+            k = cmd2.index("-j")
+            cmd2[k + 1] = str(min(3, len(again)))
+            k = cmd2.index("--harness")
+            cmd2 = cmd2[:k]
+            for fn in again:
+                cmd2 += ["--harness", fn]
+            try:
+                p2 = subprocess.run(cmd2, cwd=root, env=env, capture_output=True, timeout=tmo * 3 * len(again) + 900)
+                out2 = p2.stdout.decode(errors="replace") + "\n" + p2.stderr.decode(errors="replace")
+            except subprocess.TimeoutExpired as e:
+                out2 = (e.stdout or b"").decode(errors="replace") + "\nKANI DRIVER TIMEOUT\n"
+            with open(os.path.join(outdir, f"kani-{crate}.log"), "a") as f:
+                f.write("\n\n==== second run of timed-out harnesses\n" + " ".join(cmd2) + "\n\n" + out2)
+            for kk, vv in parse_output(out2).items():
+                parsed[kk] = vv
+            wall = time.time() - t0
         info = {
             "unit": f"kani:{crate}",
             "engine": "kani",
